@@ -100,6 +100,13 @@ pub fn prefixes(prop: &str) -> Vec<Vec<Step>> {
                 ]);
             }
         }
+        "C08" => {
+            for root in 0..5u8 {
+                for variant in 0..3u8 {
+                    v.push(vec![new_arena(0, vec![]), Step::PlainRootProtocol { root, variant }]);
+                }
+            }
+        }
         "C07" => {
             // finalize through mark_debt with zero debt right after a barrier in the Marked phase
             v.push(vec![
